@@ -61,6 +61,7 @@ func c11Gen(tier string, seed int64) []fw.Case {
 	for _, ca := range []string{"peerclose", "localclose", "malformed"} {
 		all = append(all, c11Case{Kind: "late-acks", Cause: ca}, c11Case{Kind: "late-acks", Cause: ca, Chunk: 1})
 	}
+	all = append(all, c11Case{Kind: "connect-writefail", Cause: "peerclose"}, c11Case{Kind: "connect-writefail", Cause: "peerclose", Slow: 2})
 	for _, ca := range []string{"cancel", "deadline"} {
 		for _, k := range []string{"switch-pub1", "switch-pub2", "switch-sub"} {
 			all = append(all, c11Case{Kind: k, Cause: ca})
@@ -104,6 +105,9 @@ func c11One(k c11Case, rng *rand.Rand) (sig, detail string, trace []string) {
 	}
 	if k.Kind == "late-acks" {
 		return c11LateAcks(k, rng)
+	}
+	if k.Kind == "connect-writefail" {
+		return c11ConnectWriteFail(k)
 	}
 	if strings.HasPrefix(k.Kind, "switch-") {
 		return c11Switch(k, rng)
@@ -169,6 +173,9 @@ func c11One(k c11Case, rng *rand.Rand) (sig, detail string, trace []string) {
 	}
 	if k.Kind != "connect" {
 		if err := scen.ConnectBase(cli); err != nil {
+			if errors.Is(err, scen.ErrConnectHung) && scen.CertifyStuck(tr, conn) {
+				return fail("blocked-forever", "Connect on a healthy connection (CONNACK sent at once) never returned, not even after its context expired")
+			}
 			return "inconclusive", err.Error(), nil
 		}
 	}
@@ -910,5 +917,49 @@ func c11Switch(k c11Case, rng *rand.Rand) (sig, detail string, trace []string) {
 		}
 		_ = err // success or the context's error: both are prompt returns
 	}
+	return "", "", nil
+}
+
+// c11ConnectWriteFail: the transport was dialled but the peer is gone before CONNECT is written. Connect returns an
+// error; the connection has ended, so Done() is closed and no reader goroutine is left behind.
+func c11ConnectWriteFail(k c11Case) (sig, detail string, trace []string) {
+	base := serveGoroutines()
+	tr := memnet.NewTrace()
+	peer := &scen.Script{Tr: tr, AutoConnack: true}
+	cli, conn := scen.NewBase(tr, peer)
+	conn.SlowReturn = k.Slow
+	conn.PeerClose("peer gone between dial and CONNECT")
+	fail := func(s, f string, a ...interface{}) (string, string, []string) {
+		cli.Close()
+		return s + ":connect-writefail", "connect-writefail: " + fmt.Sprintf(f, a...), tr.Dump(40)
+	}
+	err := scen.ConnectBase(cli)
+	if errors.Is(err, scen.ErrConnectHung) {
+		if scen.CertifyStuck(tr, conn) {
+			return fail("blocked-forever", "Connect never returned although the CONNECT write failed")
+		}
+		return "inconclusive", err.Error(), nil
+	}
+	if err == nil {
+		return fail("nil-after-connection-end", "Connect returned nil although the peer had closed before CONNECT could be written")
+	}
+	if d := cli.Done(); d != nil {
+		select {
+		case <-d:
+		case <-time.After(scen.Watchdog):
+			return fail("done-not-closed", "Connect failed (%v) because the connection was gone, but Done() is still open %v later", err, scen.Watchdog)
+		}
+	}
+	for i := 0; ; i++ {
+		if serveGoroutines() <= base {
+			break
+		}
+		if i > 2000 {
+			cli.Close()
+			return fail("reader-goroutine-leaked", "after the failed Connect %d library reader goroutine(s) are still running", serveGoroutines()-base)
+		}
+		time.Sleep(200 * time.Microsecond)
+	}
+	cli.Close()
 	return "", "", nil
 }
